@@ -45,8 +45,8 @@ var c09PanicExceptions = map[string]string{
 var c09IndexExceptions = map[string]string{}
 
 func checkC09(w *World, r *Report) {
-	r.Explanation = "Structural clause of C09: over every module function reachable (repaired VTA call graph) from CheckTx, DeliverTx and Query, (P-1) no explicit panic, always-panicking callee or Must* helper is reachable except a listed construct with its invariant; (P-2) every payload type assertion without comma-ok sits where the set of possible transaction types (dataflow over the tx-type tests, interprocedural) maps only to the payload type that Trx.fromProto allocates; (P-3) every slice/index expression on a slice whose bounds are not compile-time safe has a dominating length guard or clamp idiom; (P-4) results of module functions that return nil together with an error / may return nil are not dereferenced where the error is known non-nil or without a nil test; (P-5) every integer division by a non-constant has a dominating non-zero guard or a listed invariant."
-	r.NotCovered = "panics inside dependencies on hostile input (protobuf, rlp, iavl, go-ethereum, tendermint rpc core used by vm_call); resource exhaustion; nil dereferences of struct fields that are nil by construction rather than by a returned nil; guards whose removal cannot cause a panic (address/hash length checks: every consumer clamps) are deliberately not obligations."
+	r.Explanation = "Structural clause of C09: over every module function reachable (repaired VTA call graph) from CheckTx, DeliverTx and Query, (P-1) no explicit panic, always-panicking callee or Must* helper is reachable except a listed construct with its invariant; (P-2) every payload type assertion without comma-ok sits where the set of possible transaction types (dataflow over the tx-type tests, interprocedural) maps only to the payload type that Trx.fromProto allocates; (P-3) every slice/index expression on a slice whose bounds are not compile-time safe has a dominating length guard or clamp idiom; (P-4) results of module functions that return nil together with an error / may return nil are not dereferenced where the error is known non-nil or without a nil test; (P-5) every integer division by a non-constant has a dominating non-zero guard or a listed invariant; (P-6) every pointer-typed field of Trx / a payload type that the input paths dereference without a nil test is set non-nil on every success path of every function on the input paths that allocates such an object (directly or through a decoder call that establishes it, interprocedurally)."
+	r.NotCovered = "panics inside dependencies on hostile input (protobuf, rlp, iavl, go-ethereum, tendermint rpc core used by vm_call); resource exhaustion; nil dereferences of struct fields other than those of the decoded request objects (P-6) that are nil by construction rather than by a returned nil; guards whose removal cannot cause a panic (address/hash length checks: every consumer clamps) are deliberately not obligations."
 
 	roots := w.entrySet("CheckTx", "DeliverTx", "Query")
 	if len(roots) != 3 {
@@ -65,12 +65,14 @@ func checkC09(w *World, r *Report) {
 	p3(w, r, reach, scope)
 	p4(w, r, reach, scope)
 	p5(w, r, reach, scope)
+	p6(w, r, reach, scope)
 
 	r.Floor("P-1", 4, "explicit panics / Must* on the input paths, each with its exception")
 	r.Floor("P-2", 6, "payload assertions without comma-ok")
 	r.Floor("P-3", 8, "slice/index sites on input-derived slices")
 	r.Floor("P-4", 6, "dereferences of may-be-nil results")
 	r.Floor("P-5", 3, "divisions by non-constants")
+	r.Floor("P-6", 4, "pointer fields of decoded request objects and their producers")
 }
 
 // ---- P-1
